@@ -1,5 +1,7 @@
-"""Per-property configuration: which containers' correspondence streams run, which differences
-count as a violation of that property, which Lean file holds its theorems."""
+"""Per-property configuration: which containers' correspondence streams run (and with which
+generator focus), which differences count as a violation of that property, which Lean files hold
+its theorems, and the texts that go into MANIFEST.json."""
+import re
 
 TRUSTED_BASE = [
     "Lean 4.33.0 kernel (axioms per theorem listed under coverage.axioms; only propext, Classical.choice, Quot.sound accepted)",
@@ -13,20 +15,79 @@ COMMON_ASSUMPTIONS = [
     "the configured allocator returns disjoint blocks or NULL",
 ]
 
+SEQ = ["array", "array_sized", "deque", "list", "slist", "stack", "queue"]
+MAPS = ["hashtable", "hashset", "treetable", "treeset", "tsttable"]
+ALL = SEQ + MAPS + ["pqueue", "rbuf", "spool", "dpool"]
+MULTI = {"list", "slist", "array", "array_sized", "deque", "hashtable", "stack", "queue", "hashset", "treeset", "treetable", "tsttable"}
+
 
 def container_opts(container):
+    # multi: several objects may live in one session, so `live != 0` after one `destroy` is not a leak
     return {"multi": container in MULTI}
 
 
-MULTI = set()
+CONTENT_KINDS = ("obs", "crash", "walker")
+
+ERR_ST = re.compile(r"\bst=(2|3|6|7|8|rej)\b")
+
+
+def rel_content(container, d):
+    return d.layer == "L3" or d.kind in CONTENT_KINDS
+
+
+def rel_c06(container, d):
+    if d.layer == "L3":
+        return True
+    if d.kind in ("crash", "ledger", "leak", "walker"):
+        return True
+    if d.kind == "obs":      # callbacks hand each held element over exactly once
+        m = re.findall(r"cb=\[[^\]]*\]", d.detail)
+        return len(m) == 2 and m[0] != m[1]
+    return False
+
+
+def rel_c08(container, d):
+    if d.layer == "L3":
+        return True
+    return d.kind in ("refusal-swallowed", "spurious-alloc-error", "leak", "ledger", "obs", "crash")
+
+
+def rel_c14(container, d):
+    if d.layer == "L3":
+        return d.kind == "model-mem"
+    return d.kind in ("libc-alloc", "ledger", "obs", "crash")
+
+
+def rel_c16(container, d):
+    if d.layer == "L3":
+        return True
+    if d.kind == "crash":
+        return True
+    return d.kind == "obs" and bool(ERR_ST.search(d.detail))
+
+
+def rel_c20(container, d):
+    if d.layer == "L3":
+        return d.kind in ("model-phys", "model-mem")
+    return d.kind in ("absurd-request", "walker", "growth-count", "crash")
+
+
+def S(container, **kw):
+    d = dict(container=container)
+    d.update(kw)
+    return d
+
+
+LN = ("Trusted: Lean kernel; the hand-written models (lean/CollectionsC/Model) and their tie to /repo, which is "
+      "re-established on every run by the differential correspondence (real library under ASan+UBSan vs Lean spec vs Lean "
+      "model, string-identical physical state and allocator events); shims, generators, differ; gcc/glibc. ")
 
 PROPS = {
     "C19": dict(
-        streams=[dict(container="rbuf", n_quick=400, n_thorough=20000, faults=False)],
-        kinds=("obs", "crash", "walker"),
-        level="proof",
+        streams=[S("rbuf", n_quick=400, n_thorough=20000)],
+        relevant=rel_content,
         level_text="Refinement theorems in Lean 4: the concrete ring-buffer model (same fields and statements as cc_ring_buffer.c) preserves its invariant and refines a bounded FIFO that drops exactly the oldest item, for every capacity >= 1, every item value and every enqueue/dequeue history; the model is tied to the code by the differential correspondence on every run.",
-        level_note="Trusted: Lean kernel, the hand-written model, the correspondence harness (shim prints private state; capacities other than 10 are set through the shim because the conf struct is opaque).",
+        level_note=LN + "Capacities other than 10 are set through the shim because the conf struct is opaque.",
         assumptions=["capacity >= 1 (the public API only offers the default capacity 10; other capacities are set through the shim)"],
     ),
 }
